@@ -87,6 +87,7 @@ def run(ctx):
     chk.ob('Q4', 'duplicates-refused-before-write', ok, (dup or ff[0]).where(), F.name, detail,
            how='second active line found -> fatalError before the write')
     follower_test(ctx, prog, 'Q6')
+    C18.own_occurrence_rule(ctx, prog, 'Q6')
     from rules.C18 import cli_memory_rules
     cli_memory_rules(ctx, prog, cg, DISABLE, 'Q8')
     from rules.C18 import whole_file_read_rule
